@@ -33,6 +33,8 @@ def load():
 
 def prove(goal, timeout_ms=20000):
     s = z3.Solver()
+    if "String" in goal.sexpr()[:20000]:
+        timeout_ms = 2000  # z3's sequence solver is unstable on these; cvc5 decides them
     s.set("timeout", timeout_ms)
     s.add(z3.Not(goal))
     t = time.time()
@@ -44,7 +46,7 @@ def prove(goal, timeout_ms=20000):
         return "refuted", str(s.model()), dt, "z3"
     from pyvc.contract import _try_cvc5
 
-    r2 = _try_cvc5(s, timeout_ms * 2)
+    r2 = _try_cvc5(s, 60000)
     if r2 == "unsat":
         return "discharged", "", dt, "cvc5"
     return "undecided", "z3: %s, cvc5: %s" % (s.reason_unknown(), r2), dt, "z3"
